@@ -146,7 +146,15 @@ impl C18State {
         let reply: Option<rc::RFrame> = match (&self.app, ans) {
             (_, Ans::Silent) | (_, Ans::ReplyLost) => None,
             (App::Live(_), Ans::Answers) => Some(rc::status_resp(ts, da, if da % 2 == 0 { 0 } else { 3 })),
-            (App::Live(_), Ans::Invalid(_)) => None,
+            // live list: the four "Invalid" slots are further VALID answers — the other station types, and
+            // status responses whose status nibble is not OK (RS 'service not activated', DH); any response
+            // from the probed address proves that the station is there
+            (App::Live(_), Ans::Invalid(k)) => Some(match k {
+                0 => rc::status_resp(ts, da, 1),
+                1 => rc::status_resp(ts, da, 2),
+                2 => rc::RFrame::Data { da: ts, sa: da, dsap: None, ssap: None, fc: ((da & 3) << 4) | 0x03, du: vec![] },
+                _ => rc::RFrame::Data { da: ts, sa: da, dsap: None, ssap: None, fc: 0x30 | 0x0A, du: vec![] },
+            }),
             (App::Scan(_), Ans::Answers) => {
                 let id = self.cfg.idents[tracked_idx.unwrap() % self.cfg.idents.len()];
                 Some(rc::RFrame::Data { da: ts, sa: da, dsap: Some(62), ssap: Some(60), fc: 0x08, du: vec![0x02, 0x05, 0x00, 0xFF, (id >> 8) as u8, id as u8] })
@@ -158,7 +166,11 @@ impl C18State {
                 _ => rc::RFrame::Data { da: ts, sa: da, dsap: None, ssap: None, fc: 0x03, du: vec![] },
             }),
         };
-        let valid_answer = matches!(ans, Ans::Answers);
+        let valid_answer = matches!(ans, Ans::Answers) || matches!((&self.app, ans), (App::Live(_), Ans::Invalid(_)));
+        let sent_state: Option<u8> = match &reply {
+            Some(rc::RFrame::Data { fc, .. }) => Some((fc >> 4) & 3),
+            _ => None,
+        };
         let r = match &reply {
             Some(f) => {
                 let bytes = rc::encode(f);
@@ -185,7 +197,8 @@ impl C18State {
         }
         let ev: Option<Ev> = match &mut self.app {
             App::Live(l) => l.take_last_event().map(|e| match e {
-                StationEvent::Discovered(d) => Ev::Found(d.address, None),
+                // (the station type is carried in the ident slot for the comparison below)
+                StationEvent::Discovered(d) => Ev::Found(d.address, Some(d.state as u16)),
                 StationEvent::Lost(a) => Ev::Lost(a),
             }),
             App::Scan(s) => s.take_last_event().map(|e| match e {
@@ -213,6 +226,8 @@ impl C18State {
             (Some(Ev::Found(a, id)), Some(Ev::Found(b, _))) => {
                 a == b && match (&self.app, id) {
                     (App::Scan(_), Some(id)) => *id == self.cfg.idents[tracked_idx.unwrap() % self.cfg.idents.len()],
+                    // live list: the reported station type is the one in the reply
+                    (App::Live(_), Some(st)) => Some(*st as u8) == sent_state,
                     _ => true,
                 }
             }
@@ -293,8 +308,6 @@ impl World for C18World {
     fn n_actions(&self) -> usize {
         if self.s.dead || self.pending.is_none() || self.s.sweep >= self.s.cfg.sweeps {
             0
-        } else if self.s.cfg.scanner_kind == 0 {
-            3
         } else {
             7
         }
@@ -424,12 +437,14 @@ pub fn run(tier: Tier) -> ! {
     for kind in [0u8, 1] {
         for ts in [0u8, 7, 125] {
             let mut tracked = vec![0u8, ts, if ts < 125 { ts + 1 } else { 1 }, 62, 125];
+            tracked.extend_from_slice(&[2, 124]);
             if tier == Tier::Thorough {
-                tracked.extend_from_slice(&[2, 124]);
+                tracked.extend_from_slice(&[63, 126 - 2]);
+                tracked.push(if ts >= 1 { ts - 1 } else { 100 });
             }
             tracked.sort();
             tracked.dedup();
-            let cfg = Arc::new(C18Cfg { scanner_kind: kind, ts, tracked, sweeps: tier.pick(4, 6), max_losses: tier.pick(2, 3), idents: vec![0x1337, 0x0001, 0xFFFF] });
+            let cfg = Arc::new(C18Cfg { scanner_kind: kind, ts, tracked, sweeps: tier.pick(4, 5), max_losses: tier.pick(2, 3), idents: vec![0x1337, 0x0001, 0xFFFF] });
             let st = bfs(vec![C18World::init(&cfg)], &BfsOpts { max_depth: 80, max_states: 3_000_000, max_secs: tier.pick(8.0, 200.0) }, |_, nodes| {
                 for n in nodes {
                     // convergence: after two sweeps without change the live list equals the answering set
@@ -482,7 +497,7 @@ pub fn run(tier: Tier) -> ! {
     ev.samples = vec![json!({"kind":"LiveList","ts":7,"tracked":[0,7,8,62,125],"answers":["Answers","Silent","ReplyLost","Answers"]})];
     ev.exhaustive = caps.is_empty();
     ev.caps_hit = caps;
-    ev.bounds = json!({"scanner_addresses": [0,7,125], "tracked_addresses": "{0, TS, TS+1, 62, 125}", "sweeps": tier.pick(4,6), "max_lost_replies": tier.pick(2,3)});
+    ev.bounds = json!({"scanner_addresses": [0,7,125], "tracked_addresses": tier.pick("{0, 2, TS, TS+1, 62, 124, 125}", "{0, 2, TS-1, TS, TS+1, 62, 63, 124, 125}"), "sweeps": tier.pick(4,5), "max_lost_replies": tier.pick(2,3)});
     ev.distinct_outcomes = states;
     ev.extra.insert("per_world".into(), json!(per_world));
     ev.required_witnesses = vec!["c18_stable_two_sweeps", "c18_member_present", "c18_under_real_fdl_ok"];
